@@ -45,10 +45,13 @@ const HS_SECRET: [&[u8]; 2] = [
     b"harness-hs256-secret-B-fedcba9876543210fedcba9876543210",
 ];
 
-const ESH_PRIV: [&str; 2] = [include_str!("../keys/es_h1.pem"), include_str!("../keys/es_h2.pem")];
-const ESH_JWK: [&str; 2] = [
+const ESH_PRIV: [&str; 3] = [include_str!("../keys/es_h1.pem"), include_str!("../keys/es_h2.pem"), include_str!("../keys/es_h3.pem")];
+/// index 2: a P-256 key whose x coordinate begins with a zero octet (fixed-length coordinates must
+/// keep it)
+const ESH_JWK: [&str; 3] = [
     include_str!("../keys/es_h1.jwk.json"),
     include_str!("../keys/es_h2.jwk.json"),
+    include_str!("../keys/es_h3.jwk.json"),
 ];
 const EDH_PRIV: [&str; 2] = [include_str!("../keys/ed_h1.pem"), include_str!("../keys/ed_h2.pem")];
 const EDH_JWK: [&str; 2] = [
